@@ -413,11 +413,41 @@ Example chk_live_block_minus_have :
   fst (fst (apply_body_chk Debug dummy_refill dummy_refill true b [1; 2; 3])) = RPanic
   /\ fst (fst (apply_body_chk Release dummy_refill dummy_refill true b [1; 2; 3])) = RPanic
   /\ chk Debug USize (64 - 100) = None /\ chk Release USize (64 - 100) = Some (2 ^ 64 - 36)%Z.
-Proof. cbv zeta. repeat split; vm_compute; reflexivity. Qed.
+Proof.
+  cbv zeta. split; [vm_compute; reflexivity | split; [vm_compute; reflexivity | split; vm_compute; reflexivity]].
+Qed.
 
 (** an i8 addition / negation that would overflow is caught in debug, wrapped in release *)
 Example chk_live_i8 :
   chk Debug I8 (64 + 64) = None /\ chk Release I8 (64 + 64) = Some (-128)%Z
   /\ chk Debug I8 (- -128) = None /\ chk Release I8 (- -128) = Some (-128)%Z
   /\ cast I8 200 = (-56)%Z /\ cast USize (-1) = (2 ^ 64 - 1)%Z.
-Proof. repeat split; vm_compute; reflexivity. Qed.
+Proof. repeat (split; [vm_compute; reflexivity|]). vm_compute; reflexivity. Qed.
+
+(** * the profile-explicit model runs: a concrete IETF history with the real ChaCha20 producers
+      (seek to 3 bytes before the end, 4-byte apply -> Err, position, 3-byte apply, position = 2^38,
+      1-byte apply -> Err, seek past the end -> Err, mid-block seek, 300-byte apply through the
+      buffered / wide / tail paths, position), executed in both profiles by [vm_compute] *)
+Definition chk_ex_key : list N := map N.of_nat (seq 1 32).
+Definition chk_ex_nonce : list N := [0; 0; 0; 9; 0; 0; 0; 74; 0; 0; 0; 0].
+Definition chk_ex_ops : list op :=
+  [OSeek (2 ^ 38 - 3); OApply [1; 2; 3; 4]; OPos (2 ^ 64 - 1); OApply [1; 2; 3]; OPos (2 ^ 64 - 1);
+   OApply [7]; OSeek (2 ^ 38 + 1); OSeek 10; OApply (repeat 0xAA 300); OPos (2 ^ 64 - 1)].
+Definition chk_shape (o : obsc) : result * Z :=
+  match o with
+  | OC (ObsSeek r) => (r, 0%Z)
+  | OC (ObsApply r out) => (r, Z.of_nat (length out))
+  | OC (ObsPos (Some z)) => (ROk, z)
+  | OC (ObsPos None) => (RErr, (-1)%Z)
+  | OCPosPanic => (RPanic, (-1)%Z)
+  end.
+
+Example chk_example_history :
+  m_run_chk Debug VIetf 10 chk_ex_key chk_ex_nonce chk_ex_ops
+    = map OC (m_run VIetf 10 chk_ex_key chk_ex_nonce chk_ex_ops)
+  /\ m_run_chk Release VIetf 10 chk_ex_key chk_ex_nonce chk_ex_ops
+    = m_run_chk Debug VIetf 10 chk_ex_key chk_ex_nonce chk_ex_ops
+  /\ map chk_shape (m_run_chk Debug VIetf 10 chk_ex_key chk_ex_nonce chk_ex_ops)
+     = [(ROk, 0); (RErr, 4); (ROk, 2 ^ 38 - 3); (ROk, 3); (ROk, 2 ^ 38); (RErr, 1); (RErr, 0);
+        (ROk, 0); (ROk, 300); (ROk, 310)]%Z.
+Proof. split; [vm_compute; reflexivity | split; [vm_compute; reflexivity | vm_compute; reflexivity]]. Qed.
